@@ -59,7 +59,7 @@ type kvSubj[K comparable] struct {
 
 func (s *kvSubj[K]) kclass(k K) string {
 	if s.cfg.Elem == "float" { // == conflates -0 and +0 and never finds NaN: no memo
-		if kvHasCmp(s.cfg.Kind) {
+		if kvHasCmp(s.cfg.Kind) || s.cfg.NoNaN {
 			return s.d.Class(k)
 		}
 		return s.d.Str(k)
@@ -552,6 +552,23 @@ func (s *kvSubj[K]) check(o *Oracle) {
 	if !(o.On("C01") || o.On("C02") || o.On("C09") || o.On("C10") || o.On("C15") || o.On("C16")) {
 		return
 	}
+	if derive(o.cur.ID, 91, 2) == 1 && (o.On("C01") || o.On("C10")) {
+		tag := "C01"
+		if !o.On("C01") {
+			tag = "C10"
+		}
+		for j := 0; j < 3; j++ { // (observer order varies, see listSubj.check)
+			k := s.d.At(derive(o.cur.ID, 92+j, len(s.d.Tab)))
+			v, ok := s.m.Get(k)
+			wi := s.findKey(k)
+			if ok != (wi >= 0) || (ok && v != s.ents[wi].v) {
+				o.Fail(tag, "get", "after %s (asked before Keys()/Values()): Get(%s)=(%q,%v), model pair index %d", o.cur, s.d.Str(k), v, ok, wi)
+			}
+		}
+		if got := s.m.Size(); got != len(s.ents) {
+			o.Fail(tag, "size", "after %s (asked before Keys()/Values()): Size()=%d, want %d", o.cur, got, len(s.ents))
+		}
+	}
 	keys, vals := s.m.Keys(), s.m.Values()
 	disc := kvDiscipline(s.cfg.Kind)
 	bidi := kvIsBidi(s.cfg.Kind)
@@ -789,6 +806,9 @@ func (s *kvSubj[K]) checkC09(o *Oracle, keys []K, vals []string) {
 	}
 	if !slices.Equal(eachGot, want) {
 		o.Fail("C09", "each-order", "after %s: Each order %v, insertion order %v", o.cur, eachGot, want)
+	}
+	if s.cfg.Elem == "float" {
+		return // encoding/json does not write maps with float keys: nothing to enumerate
 	}
 	b, err := lm.ToJSON()
 	if err != nil {
